@@ -164,6 +164,11 @@ theorem B6_lowest_bit {x : ℤ} (hx : x ≠ 0) :
   refine ⟨Nat.find hex, Nat.find_spec hex, fun k hk => ?_⟩
   exact Bool.eq_false_iff.2 (Nat.find_min hex hk)
 
+/-- [B12] `(1 <<< i) - 1 = 2^i - 1` has exactly the bits below `i` (the masks of concepts/algorithms/fcbo.py) -/
+theorem B12_testBit_two_pow_sub_one (i k : ℕ) : ((1 <<< i : ℕ) - 1).testBit k = decide (k < i) := by
+  rw [Nat.one_shiftLeft]
+  exact Nat.testBit_two_pow_sub_one i k
+
 #print axioms B1_testBit_land
 #print axioms B4_testBit_shiftRight
 #print axioms B6_lowest_bit
